@@ -1158,6 +1158,9 @@ func (x *Exec) callEffect(st *State, i *ssa.Call, inLoop *loopCtx, fn *ssa.Funct
 		}
 		vfail("effects: dynamic call %s", i)
 	}
+	if callee.Signature.Results().Len() == 0 && isTrivialNoop(callee) {
+		return
+	}
 	fi := x.W.funcInfo(callee)
 	if x.shouldInline(fi) {
 		x.collectEffects(st, callee, callee.Blocks, &loopCtx{fn: callee, all: true}, eff, depth+1)
